@@ -359,6 +359,28 @@ def run(repo, rep):
                 rep.check(ok, 'C07.e', '%s:index:%s[%d]' % (f.qualname, seq, s.slice.value), '%s:%d' % (f.module.relpath, s.lineno),
                           why, '%s indexes %s[%d] but %s can be empty on this path (%s): IndexError inside the pipeline'
                           % (f.qualname, seq, s.slice.value, seq, why), nontrivial=True)
+    # the sort key used for sort_dict_keys must be total: ordering of user keys is attempted inside
+    # try/except TypeError and the fallback compares only types' names
+    m0 = repo.module('prettyprinter')
+    srt = m0.classes.get('_AlwaysSortable')
+    n += 1
+    if srt is None:
+        keyed = [c for f in m0.funcs.values() for c in ast.walk(f.node) if isinstance(c, ast.Call) and call_name(c) == 'sorted'
+                 and f.name == 'pretty_dict']
+        rep.check(all(any(k.arg == 'key' for k in c.keywords) for c in keyed) and bool(keyed), 'C07.e', 'dict-sort:total-key', m0.relpath,
+                  'dict keys sorted with a total key', 'dict keys are sorted without an always-sortable key: incomparable keys raise TypeError')
+    else:
+        lt = srt.methods.get('__lt__')
+        ok = False
+        if lt is not None:
+            par = enclosing_map(lt.node)
+            cmps = [c for c in ast.walk(lt.node) if isinstance(c, ast.Compare) and 'self.value' in src(c) and 'other.value' in src(c)
+                    and isinstance(c.ops[0], (ast.Lt, ast.Gt, ast.LtE, ast.GtE))]
+            ok = bool(cmps) and all(any(handler_catches(h, 'TypeError') for t in inside_try_body(c, par) for h in t.handlers) for c in cmps)
+        rep.check(ok, 'C07.e', '_AlwaysSortable.__lt__:comparison-guarded', srt.where,
+                  'ordering of user keys is attempted under except TypeError',
+                  '_AlwaysSortable.__lt__ compares user keys outside try/except TypeError: same-type unorderable keys (complex, '
+                  'mixed tuples) make the dict printer raise and degrade to repr', nontrivial=True)
     rep.floor('C07.e', n, 20)
 
     # ---------------------------------------------------------------- C07.f
